@@ -237,3 +237,32 @@ Lemma ragged_row_panics_in_model :
       {| o_account := None; o_security := None; o_no_fx := false; o_no_sort := false; o_rate := None |}
       ragged_sheet = Panic (PanicMissing 320).
 Proof. vm_compute. reflexivity. Qed.
+
+(* ---- non-vacuity: the example export of C18 (USD buy, CAD sell, a CAD/USD
+   conversion, a USD dividend, a deposit) followed by two damaged rows: a BUY
+   whose Quantity cell is a boolean and a row with an unknown action ---- *)
+From ACB Require Import Proofs.QuestradeProps.
+Local Open Scope N_scope.
+
+Definition damaged_rows : list (list cell) :=
+  [[CStr [50;48;50;51;45;48;49;45;49;49]; CStr [50;48;50;51;45;48;49;45;49;51]; CStr t_BUY; CStr [70;79;79];
+    CStr [100]; CBool true; CFloat (Some (Qcfrac 25 2)) [49;50;46;53]; CEmpty; CInt 0; CEmpty;
+    CStr t_USD; CStr [49;50;51;52;53;54;55;56]; CStr [84;114;97;100;101;115]; CStr [77;97;114;103;105;110]];
+   [CStr [106;117;110;107]; CEmpty; CStr [88;89;90]; CEmpty; CEmpty; CEmpty; CEmpty; CEmpty; CEmpty; CEmpty;
+    CEmpty; CEmpty; CEmpty; CEmpty]].
+Definition np_sheet : sheet := ex_header :: ex_rows ++ damaged_rows.
+
+Lemma np_sheet_facts :
+  Forall (fun r => length r = length ex_header) (ex_rows ++ damaged_rows) /\
+  wide_enough np_sheet /\
+  length (out_rows (run exact HeaderEnumerated no_opts np_sheet)) = 5%nat /\
+  out_errs (run exact HeaderEnumerated no_opts np_sheet)
+  = [(8, QErr.bool_value Col.qty); (9, QErr.unrecognized_action)]%N /\
+  map b_row (out_rows (run exact HeaderEnumerated no_opts np_sheet)) = [2; 5; 2; 3; 6]%N /\
+  run dec HeaderEnumerated no_opts np_sheet = run exact HeaderEnumerated no_opts np_sheet.
+Proof.
+  assert (HR : Forall (fun r => length r = length ex_header) (ex_rows ++ damaged_rows))
+    by (repeat constructor).
+  split; [exact HR | ]. split; [apply rectangular_wide; exact HR | ].
+  vm_compute. repeat split.
+Qed.
